@@ -167,8 +167,14 @@ def judge_call(obj, args, kwargs, result, expect_outside=False, twin_logd=None, 
         else:
             ev["why"] = f"logd is {f0} at a point not declared outside the support"
         return ev
+    only = None
+    if cond_allow > 0 and x.size > 40:
+        # large ill-conditioned workload: a fixed-size random subset of the coordinates (the call site adds eigen- and
+        # random-direction derivatives); the subset is a deterministic function of the point
+        sub = np.random.RandomState(int(abs(float(np.sum(x))) * 1e6) % (2 ** 31 - 1))
+        only = sorted(sub.choice(x.size, 12, replace=False).tolist())
     try:
-        R, err, hs = FD.richardson_gradient(fscalar, x)
+        R, err, hs = FD.richardson_gradient(fscalar, x, only=only)
     except Exception as e:  # noqa
         ev["why"] = f"logd failed inside the stencil: {type(e).__name__}: {core.short(str(e), 80)}"
         return ev
